@@ -9,7 +9,8 @@ def _sizes(tier, k):
 
 
 def main(tier, t0):
-    tasks = stage_check.tasks_for("C11", tier, scenario="single", sizes=_sizes, cfg={"want_shacl": True})
+    tasks = stage_check.tasks_for("C11", tier, scenario="single", sizes=_sizes, cfg={"want_shacl": True},
+                                  structure_filter=lambda st: st.get("mode") != "shapemap")
     return stage_check.main("C11", tier, t0, tasks=tasks,
                             explanation="on every path both real serializers run on the same shape list of one Shaper; the ShExC parse and the SHACL graph are reduced to "
                                         "(shape, target class, direction, predicate, value restriction, min, max) tuples which must coincide under the mapping of the property.")
